@@ -627,10 +627,21 @@ def snap_ops(rng, n_plain, n_task):
 
 def snapshot_experiment(ctx):
     """search-only: nothing is proved about HDF5; a failure is reported with a replay"""
-    try:
-        exe = snap_build()
-    except Exception as e:      # not claimed: an environment without HDF5 does not fail the check
-        ctx.cov["snapshot_experiment"] = "not run: %s" % (str(e)[:300],)
+    exe, msg = None, ""
+    for attempt in range(2):    # one retry: the engine library build shares the machine with other checks
+        try:
+            exe = snap_build()
+            break
+        except Exception as e:
+            msg = str(e)
+    if exe is None:
+        ctx.cov["snapshot_experiment"] = "not run: %s" % (msg[-400:],)
+        if "not configured" in msg or ".git/HEAD" in msg:
+            # environment (no HDF5 / git worktree without .git directory): clause not exercised, not claimed
+            ctx.notes.append("HDF5 snapshot experiment not run: " + msg[-200:])
+        else:
+            # the writer/reader sources no longer build: the clause can no longer be exercised
+            ctx.broken_obligation("HDF5 snapshot experiment (harness c20_snap + engine library) does not build against the current tree", msg[-3000:])
         return
     ops = snap_ops(ctx.rng, ctx.budget(3, 150), ctx.budget(6, 120))
     rc, out, err = vlib.run_exe(exe, "\n".join(ops) + "\n", timeout=1200)
